@@ -27,7 +27,11 @@ uncompressed messages of 2-4 subsets whose delayed replications in front of the 
 subset -- chosen so that the subsets record the SAME number of items (the operator sits at the same flat position,
 different elements precede it) -- with per-subset bit-maps and, for delayed bit-map replications, per-subset bit-map
 lengths.  Coverage of that class is measured from the implementation (hook on build_bitmapped_descriptors, counters
-`xsub-*` in the evidence) and never compared.
+`xsub-*` in the evidence) and never compared.  (d) `table-group-reuse` (run_xversion): one Decoder / compiling Decoder /
+Encoder / compiling Encoder for the whole stream over families of harness/xversion.py - the same bit-map construct over an
+element that two bundled table groups define differently (list derived from /repo/pybufrkit/tables, nothing by hand) -
+decoded and encoded A, B, A; marker values against their owner and against the tables the message names, Spec.links, the
+model under those tables, a fresh object (seeded/C07-4: marker descriptors cached on the coder object by element id).
 """
 import json
 import os
@@ -66,7 +70,13 @@ META = dict(
          'correspondence check: Spec.links is evaluated by the compiled model on the implementation\'s own item list of '
          'EVERY subset of every generated case (with the cancel times observed on the implementation) and compared with '
          'the implementation\'s bitmap_links and with the model walk; the evidence counts how many generated cases lie '
-         'inside the hypotheses of the theorem (WFlinks template, markersOk items).',
+         'inside the hypotheses of the theorem (WFlinks template, markersOk items).'
+         '  Re-use stream (C07-4, C13-2): ONE Decoder, one compiling Decoder, one Encoder and one compiling Encoder handle, one '
+         'after the other (A, B, A), the members of families derived mechanically from the bundled tables (harness/xversion.py: '
+         'the same bit-map construct - 222000 / 223255 / 224255 / 225255 / 232255, 237000 chains, associated fields - over an '
+         'element that two table groups define differently); every result: Spec.links on its items, every marker value against '
+         'its owner AND every plain element against the Table B entry of the group the message names, the coder model under '
+         'those tables, and a fresh object.',
     technique='Lean 4 theorems (specification shown to be a left fold by an invariant over item prefixes; refinement '
               'invariant between the registers of the walk and the fold state, carried through the mutual structural '
               'recursion of the walk with a ghost list of cancel times; negations by kernel evaluation) + executable '
@@ -621,15 +631,16 @@ def make_cases(drv, treq, rng, plans):
 
 # --------------------------------------------------------------------------------------------------
 # implementation observations
-def impl_decode_full(b):
-    """-> dict(status, subsets[{d,v,l,cancels}], wire=..., nested=...)"""
+def impl_decode_full(b, decoder=None):
+    """-> dict(status, subsets[{d,v,l,cancels}], wire=..., nested=...); `decoder`: the Decoder object to use (a new one
+    when None)"""
     from pybufrkit.decoder import Decoder
     install_hooks()
     del _CANCELS[:]
     del _BUILDS[:]
     out = {}
     try:
-        msg = Decoder().process(b, wire_template_data=False)
+        msg = (decoder or Decoder()).process(b, wire_template_data=False)
     except Exception as e:  # noqa
         return {'status': core.err_tag(e)}
     td = msg.template_data.value
@@ -1119,6 +1130,154 @@ def report(ctx, c, why, b=None, stage='decode', extra=None):
     ctx.violation('%s (ids %s)' % (why, c.ids[:60]), rep, signature=sig)
 
 
+# --------------------------------------------------------------------------------------------------
+# (d) one coder object, several table groups
+def check_table_definitions(sub, g):
+    """every plain element item of a decoded subset carries the definition the message's OWN table group gives its id
+    (unit, scale, reference, width as in the table files read by the harness); -> first discrepancy or None"""
+    for i, lab in enumerate(sub['d']):
+        if not lab.isdigit() or int(lab) >= 100000:
+            continue
+        e = g.b.get(int(lab))
+        if e is None:
+            continue
+        nb, sc, ref, unit = sub['elems'][i]
+        if (nb, sc, ref, unit) != (int(e[4]), int(e[2]), int(e[3]), e[1]):
+            return 'item %d (%s) decoded with width/scale/reference/unit %s, table group %s defines %s' % (
+                i, lab, (nb, sc, ref, unit), g.name, (int(e[4]), int(e[2]), int(e[3]), e[1]))
+    return None
+
+
+def run_xversion(ctx, drv, rng):
+    """Link / marker oracle under RE-USE: ONE Decoder (and one compiling Decoder, one Encoder, one compiling Encoder) for
+    the whole stream; the members of a family - the same bit-map construct over the same element ids under table groups
+    that define the marked element differently (derived from the bundled tables, harness/xversion.py) - are decoded and
+    encoded one after the other (A, B, A ...).  Every result: Spec.links on its items, every marker value against the
+    element its link names AND against the tables the message names, the model under those tables, a fresh object."""
+    from pybufrkit.decoder import Decoder
+    from pybufrkit.encoder import Encoder
+    from harness import xversion
+    quick = ctx.tier == 'quick'
+    cat = xversion.Catalogue()
+    fams, problems, stats = xversion.build_families(drv, rng, 70 if quick else 700, shapes=xversion.MARKER_SHAPES + ('assoc',), cat=cat)
+    for k, v in sorted(stats.items()):
+        ctx.count('xversion:' + k, v)
+    ctx.count('xversion:elements defined differently in two bundled table groups', len(cat.elements))
+
+    def rep(f, m, why, stage):
+        ctx.violation('table-group re-use: family %s (%s over %s, groups %s), message of %s: %s (ids %s)'
+                      % (f['name'], f['shape'], f['E'], f['groups'], m['group'], why, f['ids']),
+                      {'mode': 'xversion', 'family': {k: v for k, v in f.items() if k != 'members'},
+                       'messages': [{'group': x['group'], 'hex': x['bytes'].hex(), 'json': x['json']} for x in f['members']]},
+                      signature={'stage': stage, 'features': sorted('op%d' % k for k in f['kinds']), 'base': 'xversion:' + f['shape']})
+    for f, m, why in problems:
+        rep(f, m, why, 'xversion-fresh-vs-model')
+    decoders = {None: Decoder(), 4: Decoder(compiled_template_cache_max=4)}
+    encoders = {None: Encoder(), 4: Encoder(compiled_template_cache_max=4)}
+    todo = []
+    for f in fams:
+        order = list(f['members'])
+        rng.shuffle(order)
+        order = order + order[:1]
+        bad = False
+        for cfg in (None, 4):
+            prev = None
+            for m in order:
+                g = cat.by_name[m['group']]
+                ctx.case({'ids': f['ids'], 'group': m['group'], 'cfg': cfg, 'after': prev}, nontrivial=prev is not None and prev != m['group'],
+                         sample=False)
+                ctx.traces += 1
+                ctx.count('stream:table-group-reuse')
+                ctx.count('xversion:shape:' + f['shape'])
+                im = impl_decode_full(m['bytes'], decoder=decoders[cfg])
+                why = None
+                if im['status'] != m['dec'][0]:
+                    why = 'decoder status %s, a fresh Decoder gives %s' % (im['status'], m['dec'][0])
+                elif im['status'] == 'ok':
+                    for s, (sub, ref) in enumerate(zip(im['subsets'], m['dec'][1])):
+                        if sub['d'] != ref['d'] or sub['l'] != ref['l'] or repr(sub['v']) != repr(ref['v']):
+                            why = 'subset %d decoded after a message of table group %s differs from a fresh Decoder: labels %s values %s links %s, fresh: %s %s %s' % (
+                                s, prev, sub['d'], sub['v'], sub['l'], ref['d'], ref['v'], ref['l'])
+                            break
+                        why = check_markers(sub) or check_table_definitions(sub, g)
+                        if why:
+                            why = 'subset %d: %s' % (s, why)
+                            break
+                        ctx.count('marker-values-checked', sum(1 for lab in sub['d'] if lab[0] in 'TFDR'))
+                    if why is None and not ORACLE_ONLY:
+                        why = P.compare_decode((im['status'], im.get('subsets'), None), m['model_dec'])
+                        why = why and 'decode vs model under the tables of %s: %s' % (m['group'], why)
+                if why:
+                    rep(f, m, why, 'links')
+                    bad = True
+                    break
+                if im['status'] == 'ok':
+                    todo.append((f, m, im))
+                # the same Encoder object
+                try:
+                    eb = encoders[cfg].process(json.loads(m['json']), wire_template_data=False).serialized_bytes
+                except Exception as e:  # noqa
+                    eb = core.err_tag(e)
+                if eb != m['bytes']:
+                    rep(f, m, 'the Encoder that encoded a message of table group %s before gives %s, a fresh Encoder %d bytes'
+                        % (prev, ('%d bytes' % len(eb)) if isinstance(eb, bytes) else eb, len(m['bytes'])), 'encode')
+                    bad = True
+                    break
+                prev = m['group']
+            if bad:
+                break
+    # Spec.links on the items of every subset decoded by the re-used objects
+    reqs, where = [], []
+    for f, m, im in todo:
+        for s, sub in enumerate(im['subsets']):
+            if f['comp'] and s > 0:
+                break
+            reqs.append({'op': 'links-spec', 'd': sub['d'], 'v': [C.from_py_exact(x) for x in sub['v']], 'cancels': sub['cancels']})
+            where.append((f, m, s, sub))
+    for (f, m, s, sub), sp in zip(where, drv.batch(reqs)):
+        if sp['l'] != sub['l']:
+            rep(f, m, 'links: subset %d: implementation %s, Spec.links on its items %s' % (s, sub['l'], sp['l']), 'links')
+        ctx.count('links', len(sub['l']))
+
+
+def replay_xversion(ctx, rep):
+    """the messages of one family (A, B, ..., A) through ONE Decoder / Encoder, each result against fresh objects"""
+    from pybufrkit.decoder import Decoder
+    from pybufrkit.encoder import Encoder
+    f = rep['family']
+    msgs = rep['messages'] + rep['messages'][:1]
+    for cfg in (None, 4):
+        dec, enc = Decoder(compiled_template_cache_max=cfg), Encoder(compiled_template_cache_max=cfg)
+        prev = None
+        for m in msgs:
+            b = bytes.fromhex(m['hex'])
+            ctx.case({'hex': m['hex'], 'cfg': cfg, 'after': prev})
+            im, fresh = impl_decode_full(b, decoder=dec), impl_decode_full(b)
+            why = None
+            if im['status'] != fresh['status']:
+                why = 'decoder status %s, a fresh Decoder gives %s' % (im['status'], fresh['status'])
+            elif im['status'] == 'ok':
+                for s, (sub, ref) in enumerate(zip(im['subsets'], fresh['subsets'])):
+                    if repr([sub[k] for k in ('d', 'v', 'l', 'elems')]) != repr([ref[k] for k in ('d', 'v', 'l', 'elems')]):
+                        why = 'subset %d decoded after a message of table group %s differs from a fresh Decoder' % (s, prev)
+                    why = why or check_markers(sub)
+                    if why:
+                        break
+            if why is None:
+                try:
+                    eb = enc.process(json.loads(m['json']), wire_template_data=False).serialized_bytes
+                except Exception as e:  # noqa
+                    eb = core.err_tag(e)
+                if eb != b:
+                    why = 'the re-used Encoder gives another result than a fresh one'
+            print('cfg=%s group=%s after=%s: %s' % (cfg, m['group'], prev, why or 'ok'))
+            if why:
+                ctx.violation('table-group re-use (replay): message of %s after %s: %s' % (m['group'], prev, why), rep,
+                              signature={'stage': 'links', 'features': sorted('op%d' % k for k in f.get('kinds', [])), 'base': 'xversion:' + f.get('shape', '?')})
+                return
+            prev = m['group']
+
+
 def all_patterns(nmax=8):
     out = []
     for n in range(1, nmax + 1):
@@ -1194,6 +1353,8 @@ def run(ctx):
         total += run_chunk(ctx, drv, treq, cases)
         ctx.count('generated', len(part))
         ctx.count('with-values', len(cases))
+    # (d) re-use of one coder object over table groups that define the marked elements differently
+    run_xversion(ctx, drv, ctx.rng('xversion'))
     ctx.notes.append('Spec.links is evaluated on the implementation item list of every decoded subset (driver op links-spec); '
                      'C07_links_eq_spec is proved for WFlinks templates and markersOk items: the counters '
                      'subsets-inside-C07_links_eq_spec / WFlinks / subsets-outside-markersOk say how many generated cases lie '
@@ -1205,6 +1366,8 @@ def replay(ctx, path):
         body = json.load(f)
     rep = body['replay']
     drv = ctx.driver
+    if rep.get('mode') == 'xversion':
+        return replay_xversion(ctx, rep)
     treq = tables_io.group_request()
     c = C7Case([rep['ids']], rep.get('forced', []), rep['n_subsets'], rep['compressed'], rep.get('edition', 4))
     c.valss = rep['values']
